@@ -61,7 +61,10 @@ pub fn run_vamm(out: &mut dyn Write, seed: u64, thorough: bool, n_hist: usize) {
                     let quoted: Option<Uint128> = w.q(&w.addr(v), &mv::QueryMsg::InputAmount { direction: mvdir, amount: Uint128::new(amt) });
                     let lim = match (rng.below(5), quoted) { (0, Some(x)) => x.u128(), (1, Some(x)) => x.u128() + 1, (2, Some(x)) => x.u128().saturating_sub(1), _ => 0 };
                     writeln!(tr.out, "A quoted={}", quoted.map(|x| x.to_string()).unwrap_or("err".into())).unwrap();
-                    tr.step(&mut w, &Op::Vamm { sender: FAKE_ENGINE, v, m: VMsg::SwapIn { dir, q: amt, lim, cgo: rng.chance(1, 2) } });
+                    let cgo = rng.chance(1, 2);
+                    let ok = tr.step(&mut w, &Op::Vamm { sender: FAKE_ENGINE, v, m: VMsg::SwapIn { dir: dir.clone(), q: amt, lim, cgo } });
+                    // a swap refused under a limit is retried without it: the limit must have been the reason
+                    if !ok && lim != 0 { writeln!(tr.out, "A quoted={}", quoted.map(|x| x.to_string()).unwrap_or("err".into())).unwrap(); tr.step(&mut w, &Op::Vamm { sender: FAKE_ENGINE, v, m: VMsg::SwapIn { dir, q: amt, lim: 0, cgo } }); }
                 }
                 8..=13 => {
                     let dir = if rng.chance(1, 2) { Dir::Add } else { Dir::Rem };
@@ -71,7 +74,8 @@ pub fn run_vamm(out: &mut dyn Write, seed: u64, thorough: bool, n_hist: usize) {
                     let quoted: Option<Uint128> = w.q(&w.addr(v), &mv::QueryMsg::OutputAmount { direction: mvdir, amount: Uint128::new(amt) });
                     let lim = match (rng.below(5), quoted) { (0, Some(x)) => x.u128(), (1, Some(x)) => x.u128() + 1, (2, Some(x)) => x.u128().saturating_sub(1), _ => 0 };
                     writeln!(tr.out, "A quoted={}", quoted.map(|x| x.to_string()).unwrap_or("err".into())).unwrap();
-                    tr.step(&mut w, &Op::Vamm { sender: FAKE_ENGINE, v, m: VMsg::SwapOut { dir, b: amt, lim } });
+                    let ok = tr.step(&mut w, &Op::Vamm { sender: FAKE_ENGINE, v, m: VMsg::SwapOut { dir: dir.clone(), b: amt, lim } });
+                    if !ok && lim != 0 { writeln!(tr.out, "A quoted={}", quoted.map(|x| x.to_string()).unwrap_or("err".into())).unwrap(); tr.step(&mut w, &Op::Vamm { sender: FAKE_ENGINE, v, m: VMsg::SwapOut { dir, b: amt, lim: 0 } }); }
                 }
                 14..=16 => {
                     let dt = match rng.below(6) { 0 => 0, 1 => 1, 2 => 5 + rng.below(60), 3 => 900, 4 => 3600 + rng.below(100), _ => rng.below(2000) };
